@@ -561,6 +561,29 @@ func runC01(c *Ctx) {
 		}
 	}
 
+	checkConsensusCallbacks(c, "C01.callbacks")
+}
+
+// checkConsensusCallbacks: every asynchronous callback of the consensus object
+// takes the mutex first and acts only if height, round and step are still the
+// ones it was created in; public entries lock before entering the state machine.
+func checkConsensusCallbacks(c *Ctx, rule string) {
+	const pk = "consensus"
+	fns := c.pkgFuncs(pk)
+	isCS := func(fn *ssa.Function) bool {
+		for f := fn; f != nil; f = f.Parent() {
+			if f.Signature.Recv() != nil && strings.HasSuffix(f.Signature.Recv().Type().String(), "consensus.consensus") {
+				return true
+			}
+		}
+		return false
+	}
+	top := func(fn *ssa.Function) *ssa.Function {
+		for fn.Parent() != nil {
+			fn = fn.Parent()
+		}
+		return fn
+	}
 	// ------------------------------------------------------------ callbacks
 	type cbInfo struct {
 		fn   *ssa.Function
@@ -591,7 +614,7 @@ func runC01(c *Ctx) {
 		}
 	}
 	sort.Slice(cbs, func(i, j int) bool { return cbs[i].fn.Pos() < cbs[j].fn.Pos() })
-	c.check(len(cbs) >= 8, "C01.callbacks", "asynchronous callbacks found", token.NoPos, fmt.Sprint(len(cbs)), fmt.Sprintf("%d callbacks", len(cbs)))
+	c.check(len(cbs) >= 8, rule, "asynchronous callbacks found", token.NoPos, fmt.Sprint(len(cbs)), fmt.Sprintf("%d callbacks", len(cbs)))
 	effect := func(cc *ssa.CallCommon) bool {
 		n := methodName(cc)
 		if strings.HasPrefix(n, "enter") || n == "sendVote" || n == "sendProposal" || n == "commitAndEnterNewHeight" || n == "Finalize" || strings.HasPrefix(n, "resetFor") || n == "SetByValidatedBlock" {
@@ -617,7 +640,7 @@ func runC01(c *Ctx) {
 			r, _ := callArgs(first.Common())
 			okLock = methodName(first.Common()) == "Lock" && r != nil && strings.HasSuffix(render(r), "free:cs.mutex")
 		}
-		c.check(okLock, "C01.callbacks", name+" takes the consensus mutex first", cb.fn.Pos(), "cs.mutex.Lock()", "the callback touches consensus state without holding the mutex")
+		c.check(okLock, rule, name+" takes the consensus mutex first", cb.fn.Pos(), "cs.mutex.Lock()", "the callback touches consensus state without holding the mutex")
 		for _, cs := range c.calls(cb.fn, effect) {
 			gs := guardsAt(cs.Instr)
 			fresh := false
@@ -636,7 +659,7 @@ func runC01(c *Ctx) {
 				fresh = true
 			}
 			_, started := holds(gs, wTrue("started", `^\*?free:cs\.started$`))
-			c.check(fresh && started, "C01.callbacks", name+": "+methodName(cs.Common())+" ⊢ height/round/step unchanged and running", cs.Pos(), "cs.hrs == hrs && cs.started", "a stale callback can act on a later height, round or step: "+guardsString(gs))
+			c.check(fresh && started, rule, name+": "+methodName(cs.Common())+" ⊢ height/round/step unchanged and running", cs.Pos(), "cs.hrs == hrs && cs.started", "a stale callback can act on a later height, round or step: "+guardsString(gs))
 		}
 	}
 	// public entries lock before touching the state machine
@@ -649,7 +672,7 @@ func runC01(c *Ctx) {
 			r, _ := callArgs(cc)
 			return methodName(cc) == "Lock" && r != nil && strings.HasSuffix(render(r), "$r.mutex")
 		})
-		if !c.check(len(locks) >= 1, "C01.callbacks", ent+" takes the consensus mutex", fn.Pos(), "cs.mutex.Lock()", ent+" does not lock") {
+		if !c.check(len(locks) >= 1, rule, ent+" takes the consensus mutex", fn.Pos(), "cs.mutex.Lock()", ent+" does not lock") {
 			continue
 		}
 		for _, cs := range c.calls(fn, func(cc *ssa.CallCommon) bool {
@@ -666,7 +689,7 @@ func runC01(c *Ctx) {
 					ok = true
 				}
 			}
-			c.check(ok, "C01.callbacks", ent+": "+methodName(cs.Common())+" runs under the mutex", cs.Pos(), "Lock dominates", "state machine entered without the mutex")
+			c.check(ok, rule, ent+": "+methodName(cs.Common())+" runs under the mutex", cs.Pos(), "Lock dominates", "state machine entered without the mutex")
 		}
 	}
 }
